@@ -617,6 +617,19 @@ theorem bitfield_hash_eq_of_eq {w : Nat} (hc : Nat → Nat → Nat) (hwd : BitVe
   have : a = b := by simpa [C10.eq] using h
   rw [this]
 
+/-! ### the theorems compose: a nested value type inherits the laws from its components -/
+/-- `optional<variant<optional<T>, vector<T, n>>>` (the nested type of the harness): `==` is equality, `<` a strict weak
+order compatible with it — by instantiating the component hypotheses of each level with the theorem of the level below -/
+theorem nested_composition {n : Nat} {eq lt : α → α → Bool} (he : LawfulEq eq) (hl : StrictTotal lt) :
+    LawfulEq (Opt.eq (SumV.eq (Opt.eq eq) (MVec.eq (n := n) eq))) ∧
+    StrictWeak (Opt.lt (SumV.lt (Opt.lt lt) (MVec.lt (n := n) lt))) ∧
+    Compatible (fun a b => Opt.eq (SumV.eq (Opt.eq eq) (MVec.eq (n := n) eq)) a b = true)
+      (Opt.lt (SumV.lt (Opt.lt lt) (MVec.lt (n := n) lt))) := by
+  have e1 : LawfulEq (SumV.eq (Opt.eq eq) (MVec.eq (n := n) eq)) := SumV.eq_iff (Opt.eq_iff he) (equalV_iff he)
+  have l1 : StrictTotal (SumV.lt (Opt.lt lt) (MVec.lt (n := n) lt)) :=
+    SumV.lt_strictTotal (Opt.lt_strictTotal hl) (arrayLess_strictTotal hl)
+  exact ⟨Opt.eq_iff e1, (Opt.lt_strictTotal l1).strictWeak, compatible_of (Opt.eq_iff e1) (Opt.lt_strictTotal l1)⟩
+
 /-! ## Non-vacuity: the component hypotheses hold for `int`; concrete values on every interesting branch -/
 
 example : LawfulEq (fun a b : Int => a == b) := fun a b => by simp
